@@ -79,7 +79,7 @@ Proof.
   - rewrite <- E. right.
     match goal with |- context [trrset_loop ?u ?a ?b ?r ?bm ?s] => destruct (trrset_loop u a b r bm s) as [[bm' st']| | |] end;
       cbn [omap bind st_erase fst snd]; try reflexivity.
-    destruct (is_some st'); reflexivity.
+    destruct (is_some st') eqn:Es; cbn [omap fst snd]; rewrite ?Es; reflexivity.
 Qed.
 
 Definition acc_erase (acc : list tnsec) : list nsec := map tn_rec acc.
@@ -328,3 +328,13 @@ Example nsec_t_example :
   = Ok [ mk_tnsec (mk_nsec [[101; 120]] [[97]; [101; 120]] [0; 6; 2; 0; 0; 0; 0; 3]) 300 3;
          mk_tnsec (mk_nsec [[97]; [101; 120]] [[101; 120]] [0; 6; 0; 0; 0; 0; 0; 3]) 300 3 ].
 Proof. vm_compute. reflexivity. Qed.
+
+Theorem nsec_mixed_ttl_rrset_panics :
+  exists apex dk z, zone_sorted (map trec_strip z) /\ generate_nsecs_t apex dk z = Panic 7.
+Proof.
+  exists [[101; 120]], true,
+    [ mk_trec [[101; 120]] 1 1 300 0; mk_trec [[101; 120]] 1 1 600 0; mk_trec [[101; 120]] 6 1 3600 300 ].
+  split; [|exact nsec_mixed_ttl_panics].
+  unfold zone_sorted. cbn [map trec_strip t_name t_type].
+  repeat (constructor; [|repeat (constructor; [vm_compute; discriminate|]); constructor]). constructor.
+Qed.
